@@ -42,6 +42,9 @@ def run(it, st, fr, inv, itv):
     name = it.ob_prefix + inv['name']
     fn = inv['fn']
     is_for = isinstance(st, ast.For)
+    from .models import SentinelIter
+    if is_for and isinstance(itv, SentinelIter):
+        return run_sentinel(it, st, fr, inv, itv)
     body_mod = ast.Module(body=st.body, type_ignores=[])
     mod = _assigned_names(body_mod)
     if is_for:
@@ -109,3 +112,76 @@ def run(it, st, fr, inv, itv):
         if it.truth(it.eval(st.test, fr)):
             raise PathEnd()
     it.exec_block(st.orelse, fr)
+
+
+def run_sentinel(it, st, fr, inv, si):
+    """for x in iter(f, sentinel): body   ==   while True: x = f(); if x ==
+    sentinel: break; body.   Invariant Inv(L) at the loop head.  The loop may
+    modify heap state: the contract declares it (`modifies`: a function
+    returning [(object, attribute), ...]) and supplies `havoc` (a function
+    that assigns fresh values to exactly those locations); every heap write
+    of an iteration must fall inside the declared set."""
+    p = it.path
+    name = it.ob_prefix + inv['name']
+    fn = inv['fn']
+    if not isinstance(st.target, ast.Name):
+        raise Unsupported('invariant loop with non-name target')
+    tgt = st.target.id
+    mod = _assigned_names(ast.Module(body=st.body, type_ignores=[]))
+    mod.discard(tgt)
+
+    def L():
+        return HostNamespace('locals', dict(fr.locals))
+
+    def inv_at():
+        return ops.truthy(it, it.call(fn, [L()], {}))
+    p.check(name + '/init', inv_at())
+    for n in sorted(mod):
+        if n in fr.locals:
+            fr.locals[n] = havoc_value(it, n, fr.locals[n])
+    havoc = inv.get('havoc')
+    allowed = None
+    if havoc is not None:
+        it.call(havoc, [L()], {})
+    if inv.get('modifies') is not None:
+        allowed = [(o, a) for o, a in it.iterate(
+            it.call(inv['modifies'], [L()], {}))]
+    p.assume(inv_at())
+    old_log = it.heap_log
+    it.heap_log = []
+    hw = it.heap_writes
+    try:
+        x = it.call(si.fn, [], {})
+        if it.truth(ops.py_eq(it, x, si.sentinel)):
+            # loop exit (only way out besides break/return/raise)
+            check_writes(it, allowed, hw, name)
+            it.heap_log = old_log
+            it.exec_block(st.orelse, fr)
+            return
+        fr.locals[tgt] = x
+        try:
+            it.exec_block(st.body, fr)
+        except _Break:
+            check_writes(it, allowed, hw, name)
+            it.heap_log = old_log
+            return
+        except _Continue:
+            pass
+        check_writes(it, allowed, hw, name)
+    finally:
+        if it.heap_log is not old_log:
+            it.heap_log = old_log
+    p.check(name + '/step', inv_at())
+    raise PathEnd()
+
+
+def check_writes(it, allowed, hw, name):
+    if allowed is None:
+        if it.heap_writes != hw:
+            raise Unsupported('loop %s writes the heap but declares no '
+                              '`modifies`' % name)
+        return
+    for o, a in it.heap_log:
+        if not any(o is x and a == y for x, y in allowed):
+            raise Unsupported('loop %s writes %r.%s outside its declared '
+                              'modifies set' % (name, o, a))
